@@ -86,12 +86,6 @@ def wOfJson (j : Json) : W :=
 
 def S (l : Str) : String := String.ofList l
 
-/-- the deploy key the store writes for a workload: the name is parsed back first -/
-def storedKey (w : W) : Option Str :=
-  match parseName (makeName w.app w.entry w.sfx) with
-  | some (a, e, _) => some (workloadKey deployRoot a e w.node w.id)
-  | none => none
-
 def insertCount (m : List (String × Int)) (k : String) : List (String × Int) :=
   match m with
   | [] => [(k, 1)]
